@@ -5,6 +5,8 @@
 (*   tid, flavor ("cff" | "tt"), opts, src (source default layer),         *)
 (*   events = << PreStart, Filter*, Preprocessed, Outlines, ..., >>,       *)
 (*   ret = projection of the saved-and-reloaded font (or err).             *)
+(* A record with a field `master` is one master of an interpolatable     *)
+(* compile: it carries no events and only the final clauses apply.        *)
 (* The specification's state is the working glyph set `gs`; each event is  *)
 (* one action: the model successor is computed with the operators of       *)
 (* Filters.tla (model clause "M") and the listed properties are evaluated  *)
@@ -173,7 +175,7 @@ Return ==
   /\ LET cl == FinalClauses
          p == IF pf # "none" THEN pf ELSE FirstFailing(cl, "P")
          m == IF mf # "none" THEN mf
-              ELSE IF ~Has(T.ret, "err") /\ pc # "post" THEN "grammar@Return" ELSE FirstFailing(cl, "M")
+              ELSE IF ~Has(T.ret, "err") /\ pc # "post" /\ ~Has(T, "master") THEN "grammar@Return" ELSE FirstFailing(cl, "M")
      IN PrintT(<<"VERDICT", T.tid, p, m>>)
   /\ i' = i + 1 /\ j' = 0 /\ gs' = <<>> /\ pc' = "call" /\ pf' = "none" /\ mf' = "none" /\ synced' = TRUE
 
